@@ -82,10 +82,17 @@ META = {
         "exception exist on every class the handler catches. R13 a mapping is not subscripted with its loop key after that key was re-bound. R14 every value stored into the renderer's heading "
         "offset is non-negative (constants, restored values, parameters traced to their call sites, include options traced to their docutils "
         "converter), because update_section_level_state takes max() over the levels below the heading's. R15 a value read from "
-        "document.nameids (None for duplicated names, confirmed in docutils/nodes.py) is None-tested before it keys document.ids."
+        "document.nameids (None for duplicated names, confirmed in docutils/nodes.py) is None-tested before it keys document.ids. R16 a myst_* "
+        "attribute of document.settings (absent when the parser runs through the rST include directive's :parser: option) is read with "
+        "getattr+default unless the package itself stored it: in the function, at every call site, or - for code that only runs after the "
+        "parse - on every path of render(). R11 also requires ignoreInvalid=True when configured names go to MarkdownIt.disable() (it raises "
+        "ValueError for unknown names, read from markdown_it/main.py)."
     ),
     "not_decided": (
-        "Implicit AttributeError/KeyError/IndexError/TypeError of arbitrary expressions (only the targeted sub-rules R3, R6, R8, R9, R12, R13); "
+        "Implicit AttributeError/KeyError/IndexError/TypeError of arbitrary expressions (only the targeted sub-rules R3, R6, R8, R9, R12, R13, R15, R16) - "
+        "in particular comparisons / min() / max() between attribute values that a library may leave None (MockState.nest_line_block_lines compared "
+        "docutils line `.indent` values, None for a blank first line: TypeError, repaired in 5273152) are not decided: the nullability of foreign "
+        "attributes is not modelled; "
         "exceptions inside third-party directive/role bodies and inside docutils/Sphinx transforms; termination and totality of markdown-it "
         "itself beyond the catch-all block rule (R11); value-dependent builtins such as max() of an empty sequence or pop() of an empty list; "
         "None values placed into node lists (C14.R5); loops whose progress goes through helper functions or aliases (ANALYSIS-ERROR); "
@@ -105,6 +112,7 @@ META = {
     "assumptions": [
         "third-party directives/roles follow the docutils contract",
         "markdown-it terminates (given its catch-all block rule) and sets token.map on block tokens",
+        "a heading token's tag digit / marker length is >= 1 (the base term of the heading level, R14)",
         "streams are finite; trees are finite",
     ],
 }
@@ -2058,10 +2066,13 @@ def r9_document_attributes(corpus: Corpus, rep: Report, tier: str):
     rep.expect_min("C01.R9", 4, "plain reads of MyST-specific document attributes")
 
 
-def _established_before(fi: FunctionInfo, node: ast.AST, attr: str) -> bool:
+def _established_before(fi: FunctionInfo, node: ast.AST, attr: str, _is_document=None) -> bool:
     """Every path from the function entry to ``node`` stores ``document.<attr>`` or passes a positive
     ``hasattr(document, "<attr>")`` test (also one earlier in the same boolean expression)."""
     from ..flow import facts as _atomic
+
+    if _is_document is None:
+        _is_document = globals()["_is_document"]
 
     cfg = get_cfg(fi)
     R = cfg.stmt_of(node)
@@ -2318,6 +2329,19 @@ def r11_disable_syntax(corpus: Corpus, rep: Report, tier: str):
             n += 1
             k = f"{fi.fq}|disable(<{src_field}>)"
             site = fi.module.site(c)
+            # names that are not rules of the parser being built: markdown-it raises ValueError unless ignoreInvalid is true
+            if _mdit_disable_raises(corpus):
+                ig = c.args[1] if len(c.args) > 1 else next((k_.value for k_ in c.keywords if k_.arg == "ignoreInvalid"), None)
+                if not (isinstance(ig, ast.Constant) and ig.value is True) and not _inside_try_catching(c, "ValueError"):
+                    rep.violation(
+                        "C01.R11",
+                        k + "|unknown names",
+                        site,
+                        f"`{short(c, 60)}` hands the configured names to MarkdownIt.disable() without ignoreInvalid=True: a `{src_field}` entry that is not a rule of the parser "
+                        "being built (a typo, or a rule of a plugin that is not enabled) raises ValueError from create_md_parser, outside any handler",
+                    )
+                else:
+                    rep.ok("C01.R11", k + "|unknown names", site, "ignoreInvalid=True (or under try/except ValueError)")
 
             def names_catch_all(test: ast.expr) -> bool:
                 """the test holds when the value is the catch-all name"""
@@ -2373,6 +2397,19 @@ def r11_disable_syntax(corpus: Corpus, rep: Report, tier: str):
                     f"`{catch_all}` markdown-it's ParserBlock.tokenize never advances `line`: the parse does not terminate. The validator `{short(val or ast.Constant(None), 60)}` admits it",
                 )
     rep.expect_min("C01.R11", 1, "md.disable() calls fed from the configuration")
+
+
+def _mdit_disable_raises(corpus: Corpus) -> bool:
+    """markdown-it's MarkdownIt.disable raises ValueError for unknown names unless its second parameter is true (read from the source)."""
+
+    def compute():
+        m = corpus.sibling("markdown_it/main.py")
+        f = m.functions.get("MarkdownIt.disable")
+        if f is None:
+            return True
+        return len(f.params) >= 3 and any(isinstance(x, ast.Raise) for x in f.local_nodes())
+
+    return corpus.cache("c01-mdit-disable-raises", compute)
 
 
 def _mentions_const(test: ast.expr, const) -> bool:
@@ -2572,6 +2609,98 @@ def r13_rebound_loop_key(corpus: Corpus, rep: Report, tier: str):
 
 
 # ---------------------------------------------------------------------------
+# R16 myst_* settings are not guaranteed to exist on document.settings
+#
+# The docutils settings object carries the ``myst_*`` attributes only when the parser's settings_spec was registered
+# (publish_* with parser=..., or Sphinx).  Through the rST ``include`` directive's ``:parser:`` option the parser runs
+# on a document whose settings were never extended: a plain ``document.settings.myst_x`` is an AttributeError there.
+# Accepted: getattr(.., default) (not an attribute node at all), a dominating store / hasattr in the function (or at
+# every call site), or - for code that only runs after the parse (transforms) - an attribute that the renderer itself
+# stores on the settings on every path of render() (``_render_finalise`` does so for the footnote settings).
+
+
+def _is_settings(e: ast.AST) -> bool:
+    return (dotted(e) or "").split(".")[-1] == "settings"
+
+
+@rule("C01.R16")
+def r16_settings_attributes(corpus: Corpus, rep: Report, tier: str):
+    rep.rule(
+        "C01.R16",
+        "a myst_* attribute of document.settings is read plainly only where the package itself has stored it (in the function, at every call site, "
+        "or - for code run after the parse - on every path of render()); otherwise with getattr(.., default)",
+    )
+    _register_dynamic_dispatch(corpus)
+    g = get_callgraph(corpus)
+    funcs = [f for f in corpus.all_functions() if not f.is_lambda]
+    writers: dict[str, list[tuple[FunctionInfo, ast.AST]]] = {}
+    for fi in funcs:
+        for n in fi.local_nodes():
+            if isinstance(n, ast.Attribute) and isinstance(n.ctx, ast.Store) and _is_settings(n.value) and n.attr.startswith("myst_"):
+                writers.setdefault(n.attr, []).append((fi, n))
+    parse_entries = [corpus.func(fq) for _, fq, _ in FRONT_ENTRIES if fq.endswith(".parse")]
+    other_entries = [corpus.func(fq) for _, fq, _ in FRONT_ENTRIES if not fq.endswith(".parse")]
+    during = set(g.reachable(parse_entries))
+    after = set(g.reachable(other_entries))
+    render = corpus.func("mdit_to_docutils.base:DocutilsRenderer.render")
+    n = 0
+    n_get = 0
+    seen_keys: dict[str, int] = {}
+    for fi in funcs:
+        for r in sorted((x for x in fi.local_nodes() if hasattr(x, "lineno")), key=lambda x: (x.lineno, x.col_offset)):
+            if isinstance(r, ast.Call) and dotted(r.func) == "getattr" and len(r.args) == 3 and _is_settings(r.args[0]) and isinstance(r.args[1], ast.Constant) and str(r.args[1].value).startswith("myst_"):
+                n_get += 1
+                rep.ok("C01.R16", f"{fi.fq}|getattr(settings, {r.args[1].value!r})", fi.module.site(r), "read with a default")
+                continue
+            if not (isinstance(r, ast.Attribute) and isinstance(r.ctx, ast.Load) and _is_settings(r.value) and r.attr.startswith("myst_")):
+                continue
+            n += 1
+            attr = r.attr
+            k = f"{fi.fq}|settings.{attr}"
+            seen_keys[k] = seen_keys.get(k, 0) + 1
+            if seen_keys[k] > 1:
+                k += f"#{seen_keys[k]}"
+            site = fi.module.site(r)
+            ok = _established_before(fi, r, attr, _is_settings)
+            if not ok:
+                sites = [(cf, cc) for cf, cc in g.callers().get(fi.fq, []) if not cf.is_lambda]
+                ok = bool(sites) and all(_established_before(cf, cc, attr, _is_settings) for cf, cc in sites)
+            if ok or _inside_try_catching(r, "AttributeError"):
+                rep.ok("C01.R16", k, site, "a store / hasattr test dominates the read")
+                continue
+            stored_by_render = False
+            for wf, wn in writers.get(attr, []):
+                wcfg = get_cfg(wf)
+                W = wcfg.stmt_of(wn)
+                if wcfg.paths_avoiding("ENTRY", "EXIT", lambda nd: nd is W):
+                    continue
+                rcfg = get_cfg(render)
+                stmts = [rcfg.stmt_of(c) for c in render.local_nodes() if isinstance(c, ast.Call) and isinstance(c.func, ast.Attribute) and c.func.attr == wf.name and dotted(c.func.value) == "self"]
+                if wf.fq == render.fq or (stmts and not rcfg.paths_avoiding("ENTRY", "EXIT", lambda nd: any(nd is s_ for s_ in stmts))):
+                    stored_by_render = True
+            if stored_by_render and fi.fq in after and fi.fq not in during:
+                rep.ok("C01.R16", k, site, "only runs after the parse; every render() stores the attribute on the settings before it returns")
+            elif stored_by_render:
+                rep.violation(
+                    "C01.R16",
+                    k,
+                    site,
+                    f"`{short(r, 50)}` can run during the render, before the renderer stores `{attr}` at the end of render(): when the parser's settings were never "
+                    "registered (rST include with :parser:) this is an AttributeError; read it with getattr(.., default)",
+                )
+            else:
+                rep.violation(
+                    "C01.R16",
+                    k,
+                    site,
+                    f"`{short(r, 50)}` is read without a default and the package never stores `{attr}` on the settings itself: when the parser's settings were never "
+                    "registered (`.. include:: x.md` with `:parser: myst_parser.docutils_` from an rST document) this is an AttributeError out of the parse",
+                )
+    if n + n_get < 1:
+        rep.error("C01.R16", "expected at least one read of a myst_* setting (create_warning, the footnote transforms)")
+
+
+# ---------------------------------------------------------------------------
 # R14 heading levels stay >= 1: every value that reaches the renderer's heading offset is non-negative
 #
 # ``level = int(token.tag[1]) + self._heading_offset``; update_section_level_state() looks for the closest level
@@ -2685,13 +2814,15 @@ def r14_heading_offset(corpus: Corpus, rep: Report, tier: str):
     for n in rh.local_nodes():
         if isinstance(n, ast.Assign) and len(n.targets) == 1 and isinstance(n.targets[0], ast.Name) and isinstance(n.value, ast.BinOp) and isinstance(n.value.op, ast.Add):
             parts = [n.value.left, n.value.right]
-            if any(isinstance(p_, ast.Call) and dotted(p_.func) == "int" for p_ in parts):
+            # the base term: the tag digit `int(token.tag[1])` or the marker length `len(token.markup)` - both >= 1 for a
+            # heading token (markdown-it invariant, see META.assumptions); only the offset is judged here
+            if any(isinstance(p_, ast.Call) and dotted(p_.func) in ("int", "len") and any(isinstance(x, ast.Name) and x.id in rh.params for x in ast.walk(p_)) for p_ in parts):
                 for p_ in parts:
                     if isinstance(p_, ast.Attribute) and isinstance(p_.value, ast.Name) and p_.value.id == "self":
                         attr = p_.attr
     if attr is None:
         if any(isinstance(x, ast.BinOp) and isinstance(x.op, (ast.Add, ast.Sub)) for x in rh.local_nodes()):
-            rep.error("C01.R14", f"{rh.site()}: the heading level is computed in a way that is not `int(tag digit) + self.<offset>`")
+            rep.error("C01.R14", f"{rh.site()}: the heading level is computed in a way that is not `<int()/len() of the token> + self.<offset>`")
         else:
             rep.ok("C01.R14", f"{rh.fq}|heading level", rh.site(), "the level is the tag digit, no offset is added")
         return
@@ -2856,7 +2987,7 @@ def r15_registry_none(corpus: Corpus, rep: Report, tier: str):
 RULES = [
     r1_failure_mode_closure, r2_token_line, r3_html_attr_none, r4_reentry_guards, r5_loop_progress, r6_yaml_narrowing, r7_single_registration,
     r8_nullable_env_slots, r9_document_attributes, r10_config_divisors, r11_disable_syntax, r12_handler_attributes, r13_rebound_loop_key,
-    r14_heading_offset, r15_registry_none,
+    r14_heading_offset, r15_registry_none, r16_settings_attributes,
 ]
 
 
@@ -3149,6 +3280,30 @@ def mutants(corpus: Corpus):
             out.append(Mutant(f"c01-yaml-recursion-handler-reverted-{tag}", "C01.R1", m_.rel, splice(m_.src, h.type, f"({kept})"), expect="|RecursionError|"))
         else:
             out.append((f"c01-yaml-recursion-handler-reverted-{tag}", f"{q}: the YAML handler does not name RecursionError"))
+    # --- the settings repair (8f3a656) reverted: a myst_* setting read without a default (R16) ---
+    wm_ = corpus.mod("warnings_")
+    f = wm_.func("create_warning")
+    ga = find_node(f, lambda n: isinstance(n, ast.Call) and dotted(n.func) == "getattr" and len(n.args) == 3 and isinstance(n.args[1], ast.Constant) and str(n.args[1].value).startswith("myst_"))
+    if ga is not None:
+        out.append(Mutant("c01-suppress-setting-read-without-default", "C01.R16", wm_.rel, splice(wm_.src, ga, f"{unparse(ga.args[0])}.{ga.args[1].value}"), expect="create_warning|settings.", canary=False))
+    else:
+        out.append(("c01-suppress-setting-read-without-default", "create_warning does not read a myst_* setting through getattr"))
+    tm2 = corpus.mod("mdit_to_docutils.transforms")
+    f = base.func("DocutilsRenderer._render_finalise")
+    stf = find_node(f, lambda n: isinstance(n, ast.Assign) and isinstance(n.targets[0], ast.Attribute) and n.targets[0].attr == "myst_footnote_sort")
+    if stf is not None:
+        out.append(Mutant("c01-footnote-sort-setting-no-longer-stored", "C01.R16", base.rel, splice(base.src, stf, "pass"), expect="settings.myst_footnote_sort"))
+    else:
+        out.append(("c01-footnote-sort-setting-no-longer-stored", "_render_finalise does not store myst_footnote_sort"))
+    # --- configured rule names handed to MarkdownIt.disable() without ignoreInvalid (R11) ---
+    mdm_ = corpus.mod("parsers.mdit")
+    f = mdm_.func("create_md_parser")
+    dcall = find_node(f, lambda n: isinstance(n, ast.Call) and isinstance(n.func, ast.Attribute) and n.func.attr == "disable" and len(n.args) == 2 and isinstance(n.args[1], ast.Constant) and n.args[1].value is True)
+    if dcall is not None:
+        out.append(Mutant("c01-disable-ignore-invalid-dropped", "C01.R11", mdm_.rel, splice(mdm_.src, dcall, f"{unparse(dcall.func)}({unparse(dcall.args[0])})"), expect="unknown names"))
+        out.append(Mutant("c01-disable-ignore-invalid-false", "C01.R11", mdm_.rel, splice(mdm_.src, dcall.args[1], "False"), expect="unknown names"))
+    else:
+        out.append(("c01-disable-ignore-invalid-dropped", "create_md_parser does not call md.disable(x, True)"))
     # --- include cycle guard keyed by a path that is not normalised (R4) ---
     f = mk.func("MockIncludeDirective.run")
     npc = find_node(f, lambda n: isinstance(n, ast.Call) and (dotted(n.func) or "").endswith("normpath") and isinstance(parent(n), ast.Assign) and isinstance(parent(n).targets[0], ast.Name))
